@@ -29,11 +29,21 @@ DefVal(i) == 10 * i
 NamesOf(n) == {PNames[i] : i \in 1..n}
 
 \* dk: "lit" = literal defaults, "call" = defaults that call a top-level function (observable evaluation)
-DefExpr(i, dk) == IF dk = "lit" THEN I(DefVal(i)) ELSE Call("tr", <<I(DefVal(i))>>)
-Params(n, D, dk) == [i \in 1..n |-> [n |-> PNames[i], ty |-> "int", d |-> IF i \in D THEN DefExpr(i, dk) ELSE NoD]]
+\*     "tup" = the defaulted parameters have type (int, int) and a tuple of literals as default (a default that is neither a
+\*             scalar literal nor a call)
+TupE(a, b) == [k |-> "tup", es |-> <<a, b>>]
+DefExpr(i, dk) == CASE dk = "lit" -> I(DefVal(i)) [] dk = "call" -> Call("tr", <<I(DefVal(i))>>) [] dk = "tup" -> TupE(I(DefVal(i)), I(1))
+Params(n, D, dk) == [i \in 1..n |-> [n |-> PNames[i], ty |-> IF dk = "tup" /\ i \in D THEN "(int, int)" ELSE "int",
+                                      d |-> IF i \in D THEN DefExpr(i, dk) ELSE NoD]]
 
 \* the k-th argument written at the call site is tr(k): it prints k when (and if) it is evaluated
-ArgsOf(labels) == [k \in 1..Len(labels) |-> [n |-> labels[k], e |-> Call("tr", <<I(k)>>)]]
+\* (paired with 2 where the parameter it goes to has the tuple type)
+PIndex0(nm) == IF \E i \in 1..3 : PNames[i] = nm THEN CHOOSE i \in 1..3 : PNames[i] = nm ELSE 0
+TargetOf(labels, k) == IF labels[k] = "" THEN k ELSE PIndex0(labels[k])
+ArgsOfD(labels, D, dk) ==
+  [k \in 1..Len(labels) |-> [n |-> labels[k],
+                              e |-> IF dk = "tup" /\ TargetOf(labels, k) \in D THEN TupE(Call("tr", <<I(k)>>), I(2)) ELSE Call("tr", <<I(k)>>)]]
+ArgsOf(labels) == ArgsOfD(labels, {}, "lit")
 
 \* ---------------------------------------------------------------- which label sequences are calls
 Idx(labels) == 1..Len(labels)
@@ -154,10 +164,10 @@ FamilyOf(kind, dk, labels, n, D) ==
 
 CaseOf(kind, n, D, dk, labels) ==
   LET ps == Params(n, D, dk)
-      args == ArgsOf(labels)
+      args == ArgsOfD(labels, D, dk)
       mis == Misuse(labels, n, D)
       P == Prog(kind, ps, args)
-      id == kind \o "." \o ToString(n) \o "." \o Bits(n, D) \o (IF dk = "lit" THEN "" ELSE "c") \o "." \o LabelStr(labels)
+      id == kind \o "." \o ToString(n) \o "." \o Bits(n, D) \o (CASE dk = "lit" -> "" [] dk = "call" -> "c" [] dk = "tup" -> "t") \o "." \o LabelStr(labels)
       base == [id |-> id, kind |-> kind, arity |-> n, defaults |-> Bits(n, D), dkind |-> dk, shape |-> LabelStr(labels),
                cat |-> CatOf(mis), feat |-> FeatOf(labels, n),
                key |-> "C18|" \o FamilyOf(kind, dk, labels, n, D),
@@ -166,7 +176,7 @@ CaseOf(kind, n, D, dk, labels) ==
      ELSE LET r == Run(P.sem, 100) IN
           base @@ [inmodel |-> r.inmodel, expect |-> [compile |-> "ok"] @@ ExpectOf(r)] @@
           \* the reference does not say whether a default may be more than a literal: rejecting it is allowed, crashing is not
-          (IF dk = "call" /\ D # {} THEN [alts |-> <<[compile |-> "diag"]>>] ELSE <<>>)
+          (IF dk \in {"call", "tup"} /\ D # {} THEN [alts |-> <<[compile |-> "diag"]>>] ELSE <<>>)
 
 Seqs(A, L) == UNION {[1..m -> A] : m \in 0..L}
 Alphabet(n) == {""} \cup NamesOf(n) \cup {Unk}
